@@ -95,6 +95,9 @@ pub fn pack_points(points: &[u16], ch: &mut Choices, stats: &mut EncStats) -> Ve
         }
         if run == 128 {
             stats.point_run_128 += 1;
+            if words {
+                stats.point_word_run_128 += 1;
+            }
         }
         i += run;
     }
@@ -161,6 +164,11 @@ pub fn pack_deltas(deltas: &[i16], ch: &mut Choices, stats: &mut EncStats) -> Ve
         }
         if run == 64 {
             stats.delta_run_64 += 1;
+            match kind {
+                0 => stats.delta_zero_run_64 += 1,
+                2 => stats.delta_word_run_64 += 1,
+                _ => {}
+            }
         }
         i += run;
     }
@@ -184,6 +192,9 @@ pub struct EncStats {
     pub private_points: u32,
     pub shared_points: u32,
     pub all_points: u32,
+    pub point_word_run_128: u32,
+    pub delta_zero_run_64: u32,
+    pub delta_word_run_64: u32,
 }
 
 // ------------------------------------------------------------------ gvar
